@@ -1,0 +1,41 @@
+//! Verification hooks (only compiled with `--cfg melstf_verif`). Add-only instrumentation:
+//! counters and a log of the external-primitive calls made by the executor.
+use std::sync::atomic::{AtomicU64, Ordering};
+use std::sync::Mutex;
+
+/// Number of `opcodes_car_weight` calls on non-empty input.
+pub static CAR_WEIGHT_CALLS: AtomicU64 = AtomicU64::new(0);
+/// Number of bytes materialised out of ropes by the executor.
+pub static BYTES_MATERIALISED: AtomicU64 = AtomicU64::new(0);
+
+/// One external-primitive call made by the executor.
+#[derive(Clone, Debug, PartialEq, Eq)]
+pub enum OracleCall {
+    /// `tmelcrypt::hash_single(input) = output`
+    Hash(Vec<u8>, Vec<u8>),
+    /// `Ed25519PK(pk).verify(msg, sig) = ok`
+    SigOk(Vec<u8>, Vec<u8>, Vec<u8>, bool),
+}
+
+pub static ORACLE_LOG: Mutex<Vec<OracleCall>> = Mutex::new(Vec::new());
+
+pub fn log_call(c: OracleCall) {
+    ORACLE_LOG.lock().unwrap().push(c);
+}
+
+pub fn take_log() -> Vec<OracleCall> {
+    std::mem::take(&mut *ORACLE_LOG.lock().unwrap())
+}
+
+pub fn reset_counters() {
+    CAR_WEIGHT_CALLS.store(0, Ordering::SeqCst);
+    BYTES_MATERIALISED.store(0, Ordering::SeqCst);
+}
+
+pub fn car_weight_calls() -> u64 {
+    CAR_WEIGHT_CALLS.load(Ordering::SeqCst)
+}
+
+pub fn bytes_materialised() -> u64 {
+    BYTES_MATERIALISED.load(Ordering::SeqCst)
+}
